@@ -213,6 +213,7 @@ def run(ctx: common.Run):
         }
         if mode == 'clifford':
             sims['CliffordSimulator'] = lambda p: cirq.CliffordSimulator(seed=p)
+            sims['StabilizerSampler'] = lambda p: cirq.StabilizerSampler(seed=p)
         for sname, mk in sims.items():
             def once(prng, mk=mk):
                 r = mk(prng).run(circuit, repetitions=1)
